@@ -203,6 +203,14 @@ def ops_for(st: State, exprs, full):
     return ops
 
 
+def too_deep(rows, name):
+    """the name the library would give is already taken TWICE over (name and name_v2 both exist): the documented
+    rule covers one duplicate; deeper ones are outside the alphabet (such an operation is not enabled)"""
+    names = [r[0] for r in rows]
+    cand = name if name is not None else "_const_%d" % len(rows)
+    return cand in names and (cand + "_v2") in names
+
+
 def model_add(rows, name, coefs, limit):
     if name is None:
         name = "_const_%d" % len(rows)
@@ -243,6 +251,8 @@ def step(st: State, op, viol):
                         if observe(net) != before:
                             viol.append(("add:unknown-station-changed-state", "refused constraint changed the table", None, None))
                         return s
+                if too_deep(s.rows, name):
+                    return None
                 net.add_constraint(cur, limit, name)
                 model_add(s.rows, name, coefs, limit)
                 s.ever = True
@@ -288,6 +298,8 @@ def step(st: State, op, viol):
                         if observe(net) != before:
                             viol.append(("update:unknown-changed-state", "refused update changed the table", None, None))
                         return s
+                if too_deep([r for r in s.rows if r[0] != n], new if new is not None else n):
+                    return None
                 net.update_constraint(n, cur, limit, new)
                 s.rows = [r for r in s.rows if r[0] != n]
                 model_add(s.rows, new if new is not None else n, coefs, limit)
